@@ -80,6 +80,64 @@ def run_pilot(rp, cur, seq, unknown_every=0):
     return p.state, cbs, mcbs, errs
 
 
+class CoopRLock(object):
+    """`_pilots_lock` under the cooperative scheduler: taking it is a scheduling point, a thread that finds it
+    held parks until it is free; the order in which it is taken is recorded"""
+    def __init__(self, order):
+        self.owner, self.depth, self.order = None, 0, order
+    def __enter__(self):
+        import coop
+        me = getattr(coop._local, 'worker', None)
+        if self.owner is me and me is not None:
+            self.depth += 1; return
+        coop.point('lock')
+        while self.owner is not None:
+            coop.point('lock-wait')
+        self.owner, self.depth = me, 1
+        self.order.append(me.name if me else '?')
+    def __exit__(self, *a):
+        self.depth -= 1
+        if self.depth == 0: self.owner = None
+
+
+def run_pilot_threads(rp, cur, notifs, choices):
+    """the notifications reach PilotManager._update_pilot on one thread each (state subscriber, control subscriber,
+    application thread); choices = which thread takes its next step (steps: taking the lock, each application
+    callback).  Returns the pilot state, the callbacks and the order in which the threads got the lock"""
+    import coop
+    pm = make_pmgr(rp)
+    order = []
+    pm._pilots_lock = CoopRLock(order)
+    p = make_pilot(rp, pm, 'pilot.0000', cur)
+    cbs, mcbs = [], []
+    def pcb(pilots):
+        cbs.append(pilots[0].state)
+        coop.point('cb')
+    p._callbacks[rp.constants.PILOT_STATE]['rec'] = {'cb': pcb, 'cb_data': None}
+    pm._callbacks[rp.constants.PILOT_STATE]['rec'] = {'cb': lambda pilot, state: mcbs.append(state), 'cb_data': None}
+    ctl = coop.Controller()
+    errs = []
+    try:
+        for i, t in enumerate(notifs):
+            def fn(t=t):
+                try:
+                    pm._update_pilot({'uid': 'pilot.0000', 'state': t, 'type': 'pilot'})
+                except coop.Abort:
+                    raise
+                except Exception as e:
+                    errs.append(exc_name(e))
+            ctl.spawn('t%d' % i, fn, run_to_first_point=False)
+        for c in list(choices):
+            if ctl.where(c) != 'done': ctl.grant(c)
+        for _ in range(200):
+            live = [n for n in ctl.workers if ctl.where(n) != 'done']
+            if not live: break
+            for n in live: ctl.grant(n)
+    finally:
+        ctl.close()
+    return p.state, cbs, mcbs, errs, order
+
+
 def monitor_pilot(rp, cur, seq, state, cbs, mcbs, errs):
     vals  = rp.states._pilot_state_values
     FINAL = rp.states.FINAL
@@ -286,6 +344,25 @@ def run(ctx):
             ctx.fail(bad[0], bad[1], {'kind': 'pilot', 'cur': c, 'seq': seq}, observed=cbs)
     common.compare(ctx, 'states', ops, impl, what='PilotManager._update_pilot streams')
 
+    # ... the same with the notifications arriving on several threads at once: whatever the interleaving, the
+    # outcome is that of the notifications handled one after the other in the order the threads got the lock
+    ops, impl = [], []
+    rng = ctx.rng
+    for _ in range(ctx.n(300, 8000)):
+        c = rng.choice(psts)
+        k = rng.choice([2, 2, 3])
+        notifs = [rng.choice(psts) for _ in range(k)]
+        choices = ['t%d' % rng.randrange(k) for _ in range(rng.randint(0, 8))]
+        state, cbs, mcbs, errs, order = run_pilot_threads(rp, c, notifs, choices)
+        seq = [notifs[int(n[1:])] for n in order]
+        op = {'op': 'runpilot', 'cur': c, 'seq': seq}
+        ops.append(op); impl.append({'state': state, 'cbs': cbs})
+        ctx.case({'threads': notifs, 'choices': choices, 'cur': c}, nontrivial=len(set(order)) > 1 and bool(cbs))
+        bad = monitor_pilot(rp, c, seq, state, cbs, mcbs, errs)
+        if bad:
+            ctx.fail('threads:' + bad[0], bad[1], {'kind': 'pilot_threads', 'cur': c, 'notifs': notifs, 'choices': choices}, observed=cbs)
+    common.compare(ctx, 'states', ops, impl, what='PilotManager._update_pilot with notifications on concurrent threads (outcome = lock order)')
+
     # agent: all event sequences up to length 4, with and without finalize
     block = bootstrap_block(common.SRC)
     ops, impl = [], []
@@ -338,6 +415,11 @@ def replay(ctx, data):
         from props import c12
         _, res, viol, _ = c12.run_script(rp, inp['sched'], inp['ops'])
         bad = [v for v in viol if v[0] == 'pilot-state-moved-backwards']
+    elif inp['kind'] == 'pilot_threads':
+        state, cbs, mcbs, errs, order = run_pilot_threads(rp, inp['cur'], inp['notifs'], inp['choices'])
+        seq = [inp['notifs'][int(n[1:])] for n in order]
+        print('lock order', order, 'callbacks', cbs, 'state', state)
+        bad = monitor_pilot(rp, inp['cur'], seq, state, cbs, mcbs, errs)
     elif inp['kind'] == 'pilot':
         state, cbs, mcbs, errs = run_pilot(rp, inp['cur'], inp['seq'])
         bad = monitor_pilot(rp, inp['cur'], inp['seq'], state, cbs, mcbs, errs)
